@@ -81,7 +81,8 @@ struct CredPlan {
   nonce_opt: u8,
   n_concealed: usize,      // 0..=4 concealed subject properties
   disclosed_mask: u8,      // which of them are presented
-  disclosure_defect: u8,   // 0 none, 1 forged (not in _sd), 2 from another token, 3 duplicated, 4 garbage text, 5 reordered (legal)
+  disclosure_defect: u8,   // 0 none, 1 forged (not in _sd), 2 from another token, 3 duplicated, 4 garbage text, 5 reordered (legal),
+                           // 6 garbage text made of multi-byte characters, long enough for any message clipping to land inside one
   sd_alg: u8,              // 0 absent, 1 "sha-256", 2 unsupported "sha-999"
   issuance_delta: i64,
   expiry: Option<i64>,
@@ -125,7 +126,7 @@ impl CredPlan {
       f.push("issuer-equals-method-did");
     }
     match self.disclosure_defect {
-      1 | 2 | 4 => f.push("disclosure-bound-to-signed-digest"),
+      1 | 2 | 4 | 6 => f.push("disclosure-bound-to-signed-digest"),
       3 => either = true, // a duplicated disclosure (if anything is presented at all) may be refused
       _ => {}
     }
@@ -229,6 +230,17 @@ fn build_cred(rng: &mut Rng, p: &CredPlan) -> BuiltCred {
       }
     }
     4 => presented.push("bm90LWEtZGlzY2xvc3VyZQ".into()),
+    6 => {
+      let lead = "x".repeat(rng.usize(4));
+      let unit = *rng.pick(&["é", "€", "😀"]);
+      let n = *rng.pick(&[20usize, 90, 130, 260, 520, 1100]) + rng.usize(7);
+      let text = format!("{}{}", lead, unit.repeat(n));
+      if rng.bool() {
+        presented.insert(0, text);
+      } else {
+        presented.push(text);
+      }
+    }
     5 => presented.reverse(),
     _ => {}
   }
@@ -295,10 +307,12 @@ struct KbPlan {
   method_id_override: u8, // 0 none, 1 signing method, 2 other method
   scope: u8,              // 0 None, 1 VerificationMethod, 2 Authentication, 3 AssertionMethod
   sig: u8,                // 0 valid, 1 stranger, 2 other method's key, 3 claims altered after signing
-  sd_hash: u8,            // 0 correct, 1 over reversed disclosure order, 2 over the jwt only, 3 garbage, 4 without trailing '~', 5 over another JWT (replay)
+  sd_hash: u8,            // 0 correct, 1 over reversed disclosure order, 2 over the jwt only, 3 garbage, 4 without trailing '~', 5 over another JWT (replay),
+                          // 6 empty string, 7 a proper prefix of the right digest, 8 the right digest followed by extra characters
   nonce_opt: u8,          // 0 None, 1 equal, 2 different
   aud_opt: u8,
   window: u8,             // 0 no earliest/explicit latest far, 1 [E,L] explicit, 2 latest unset (wall clock)
+  iat_ms: bool,           // the instant that would be inside the window, written in MILLIseconds (as seconds it is unrepresentably far in the future)
   iat_pos: u8,            // window 1: 0 E-1, 1 E, 2 inside, 3 L, 4 L+1 ; window 2: 0 a day ago, 1 a day ahead, 2 five seconds ahead ; window 0: any
   n_disclosures: usize,
 }
@@ -319,6 +333,7 @@ impl KbPlan {
       nonce_opt: rng.below(2) as u8,
       aud_opt: rng.below(2) as u8,
       window,
+      iat_ms: false,
       iat_pos: match window {
         1 => 1 + rng.below(3) as u8,
         _ => 0,
@@ -368,7 +383,7 @@ impl KbPlan {
     match self.sd_hash {
       1 if order_matters => f.push("sd_hash"),
       2 if self.n_disclosures >= 1 => f.push("sd_hash"),
-      3 | 4 | 5 => f.push("sd_hash"),
+      3..=8 => f.push("sd_hash"),
       _ => {}
     }
     if self.nonce_opt == 2 {
@@ -378,6 +393,7 @@ impl KbPlan {
       f.push("aud");
     }
     match (self.window, self.iat_pos) {
+      _ if self.iat_ms => f.push("iat-window"),
       (1, 0) | (1, 4) => f.push("iat-window"),
       (2, 1) | (2, 2) => f.push("iat-window"),
       _ => {}
@@ -420,6 +436,13 @@ fn build_kb(rng: &mut Rng, p: &KbPlan, issuer_jwt: &str) -> (SdJwt, KeyBindingJW
       }
       digest_of(&s)
     }
+    6 => String::new(),
+    7 => {
+      let d = digest_of(&hash_input(&disclosures, true));
+      let keep = 1 + rng.usize(d.len() - 1);
+      d[..keep].to_string()
+    }
+    8 => format!("{}{}", digest_of(&hash_input(&disclosures, true)), rng.pick(&["A", "AA", "=", "~", "0000"])),
     _ => digest_of(&hash_input(&disclosures, true)),
   };
   const E: i64 = 1_690_000_000;
@@ -436,6 +459,7 @@ fn build_kb(rng: &mut Rng, p: &KbPlan, issuer_jwt: &str) -> (SdJwt, KeyBindingJW
     (2, _) => now + 86_400,
     _ => 1_500_000_000,
   };
+  let iat = if p.iat_ms { iat.saturating_mul(1000) + rng.below(1000) as i64 } else { iat };
   let claims = json!({"iat": iat, "aud": "did:example:verifier", "nonce": "kb-nonce-1", "sd_hash": sd_hash, "extra": {"x": 1}});
   let mut h = Map::new();
   h.insert("alg".into(), json!("EdDSA"));
@@ -716,7 +740,7 @@ fn mutate_cred(rng: &mut Rng, p: &mut CredPlan, w: u64) {
       p.nonce_hdr = rng.below(3) as u8;
       p.nonce_opt = (p.nonce_hdr + 1 + rng.below(2) as u8) % 3;
     }
-    4 => p.disclosure_defect = *rng.pick(&[1u8, 2, 4]),
+    4 => p.disclosure_defect = *rng.pick(&[1u8, 2, 4, 6]),
     5 => p.disclosure_defect = 3,
     6 => p.sd_alg = 2,
     7 => p.issuance_delta = *rng.pick(&[1i64, 1000]),
@@ -734,7 +758,7 @@ fn mutate_kb(rng: &mut Rng, p: &mut KbPlan, w: u64) {
     4 => p.scope = 1 + rng.below(3) as u8,
     5 => p.sig = 1 + rng.below(3) as u8,
     6 => {
-      p.sd_hash = 1 + rng.below(5) as u8;
+      p.sd_hash = 1 + rng.below(8) as u8;
       match p.sd_hash {
         // the order / jwt-only variants only differ from the right hash when enough disclosures are presented
         1 | 2 => {
@@ -760,6 +784,15 @@ fn mutate_kb(rng: &mut Rng, p: &mut KbPlan, w: u64) {
     10 => {
       p.window = 2;
       p.iat_pos = 1 + rng.below(2) as u8;
+    }
+    14 => {
+      // an iat that is in the window only if read as milliseconds
+      p.iat_ms = true;
+      match p.window {
+        1 => p.iat_pos = 1 + rng.below(3) as u8,
+        2 => p.iat_pos = 0,
+        _ => {}
+      }
     }
     13 => {
       // signed by a foreign key that is offered in the header itself, with a kid the holder document cannot resolve
@@ -815,11 +848,11 @@ fn main() {
     match i % 6 {
       0 => {}
       1 | 2 | 3 => {
-        let w = rng.below(14);
+        let w = rng.below(15);
         mutate_kb(&mut rng, &mut k, w);
       }
       _ => {
-        let (a, b) = (rng.below(14), rng.below(14));
+        let (a, b) = (rng.below(15), rng.below(15));
         mutate_kb(&mut rng, &mut k, a);
         mutate_kb(&mut rng, &mut k, b);
       }
